@@ -6,7 +6,8 @@
    harness source k2s::src) under unary adaptors (transform_stream, filter_stream, take_until with a
    scripted trigger stream, stop_immediately, type_erase), consumed by reduce_stream or for_each.
    The state of a chain is a chain of nodes of the same shape.  Every node offers five entry points
-   (record [ops]) mirroring what can happen to the real objects:
+   (record [ops]; each adaptor implements them on the node body, record [rops], and [wrap] adds the
+   ghost bookkeeping) mirroring what can happen to the real objects:
      o_next  st env   - next(stream) is connected and started with a receiver whose stop token
                         answers [env],
      o_clean st       - cleanup(stream) is connected and started,
@@ -113,8 +114,9 @@ Definition env_own (own : bool) : env := {| e_stopped := own; e_armed := false |
 Record srcst := { s_n : nat;        (* next operations started so far *)
                   s_out : bool;     (* a next is outstanding *)
                   s_seen : bool;    (* ... and its stop callback already ran *)
-                  s_cl : nat }.     (* cleanup: 0 not started, 1 running, 2 completed *)
-Definition src0 : srcst := {| s_n := 0; s_out := false; s_seen := false; s_cl := 0 |}.
+                  s_cl : nat;       (* cleanup: 0 not started, 1 running, 2 completed *)
+                  s_hist : list outcome }.   (* ghost: the outcomes its next operations delivered *)
+Definition src0 : srcst := {| s_n := 0; s_out := false; s_seen := false; s_cl := 0; s_hist := [] |}.
 
 Definition src_next (id : nat) (reactive : bool) (s : srcst) (en : env) : srcst * list tev * option outcome :=
   let k := s_n s in
@@ -122,35 +124,35 @@ Definition src_next (id : nat) (reactive : bool) (s : srcst) (en : env) : srcst 
   if runs_inline en then
     (* the stop callback runs inside its registration *)
     if reactive then
-      ({| s_n := S k; s_out := false; s_seen := false; s_cl := s_cl s |},
+      ({| s_n := S k; s_out := false; s_seen := false; s_cl := s_cl s; s_hist := s_hist s ++ [ODone] |},
        ev0 ++ fire_ev en ++ [TNextStopSeen id k; TNextDone id k ODone], Some ODone)
-    else ({| s_n := S k; s_out := true; s_seen := true; s_cl := s_cl s |},
+    else ({| s_n := S k; s_out := true; s_seen := true; s_cl := s_cl s; s_hist := s_hist s |},
           ev0 ++ fire_ev en ++ [TNextStopSeen id k], None)
-  else ({| s_n := S k; s_out := true; s_seen := false; s_cl := s_cl s |}, ev0, None).
+  else ({| s_n := S k; s_out := true; s_seen := false; s_cl := s_cl s; s_hist := s_hist s |}, ev0, None).
 
 Definition src_stop (id : nat) (reactive : bool) (s : srcst) : srcst * list tev * option outcome :=
   if s_out s && negb (s_seen s) then
     let k := Nat.pred (s_n s) in
     if reactive then
-      ({| s_n := s_n s; s_out := false; s_seen := false; s_cl := s_cl s |},
+      ({| s_n := s_n s; s_out := false; s_seen := false; s_cl := s_cl s; s_hist := s_hist s ++ [ODone] |},
        [TNextStopSeen id k; TNextDone id k ODone], Some ODone)
-    else ({| s_n := s_n s; s_out := true; s_seen := true; s_cl := s_cl s |}, [TNextStopSeen id k], None)
+    else ({| s_n := s_n s; s_out := true; s_seen := true; s_cl := s_cl s; s_hist := s_hist s |}, [TNextStopSeen id k], None)
   else (s, [], None).
 
 Definition src_complete (id : nat) (s : srcst) (o : outcome) : srcst * list tev * option outcome * bool :=
   if s_out s then
-    ({| s_n := s_n s; s_out := false; s_seen := false; s_cl := s_cl s |},
+    ({| s_n := s_n s; s_out := false; s_seen := false; s_cl := s_cl s; s_hist := s_hist s ++ [o] |},
      [TNextDone id (Nat.pred (s_n s)) o], Some o, true)
   else (s, [], None, false).
 
 Definition src_cleanup (id : nat) (s : srcst) : srcst * list tev :=
-  ({| s_n := s_n s; s_out := s_out s; s_seen := s_seen s; s_cl := 1 |}, [TCleanupStart id]).
+  ({| s_n := s_n s; s_out := s_out s; s_seen := s_seen s; s_cl := 1; s_hist := s_hist s |}, [TCleanupStart id]).
 
 Definition clean_outcome (o : outcome) : outcome := match o with OVal _ => ODone | _ => o end.
 
 Definition src_cleanup_complete (id : nat) (s : srcst) (o : outcome) : srcst * list tev * option outcome * bool :=
   if Nat.eqb (s_cl s) 1 then
-    ({| s_n := s_n s; s_out := s_out s; s_seen := s_seen s; s_cl := 2 |},
+    ({| s_n := s_n s; s_out := s_out s; s_seen := s_seen s; s_cl := 2; s_hist := s_hist s |},
      [TCleanupDone id (clean_outcome o)], Some (clean_outcome o), true)
   else (s, [], None, false).
 
@@ -200,8 +202,19 @@ Definition te0 : test := {| te_out := false; te_ref := 0; te_own := false |}.
 
 Inductive kst := KTr | KFi (s : fist) | KSI (s : sist) | KTU (s : tust) | KTE (s : test).
 
-(* every node carries the ghost history [h] of the outcomes its next-operations delivered *)
-Inductive sst := Node (h : list outcome) (b : body)
+(* ghost: the protocol state of a stream as its PARENT sees it *)
+Inductive pmode :=
+| PFresh        (* no next was ever started *)
+| PIdle         (* the last next delivered a value *)
+| PBusy         (* a next is outstanding *)
+| PEnded        (* the last next delivered done / an error *)
+| PCleaning     (* cleanup is outstanding *)
+| PCleaned      (* cleanup completed *)
+| PBad.         (* the parent or the stream left the protocol *)
+
+(* every node carries two ghosts: the history [h] of the outcomes its next-operations delivered and the
+   protocol state [pm]; both are maintained by [wrap] below, never read by the machine *)
+Inductive sst := Node (h : list outcome) (pm : pmode) (b : body)
 with body :=
 | BRange (pos : Z)
 | BSingle (used : bool)
@@ -213,8 +226,8 @@ Inductive tgt := TgNext (id : nat) | TgClean (id : nat).
 
 Record res := { r_st : sst; r_ev : list tev; r_out : option (opk * outcome); r_fired : bool }.
 Definition mk st ev out fired : res := {| r_st := st; r_ev := ev; r_out := out; r_fired := fired |}.
-Definition idle (st : sst) : res := mk st [] None false.
 
+(* the five entry points of a stream as seen by its parent *)
 Record ops := {
   o_next : sst -> env -> res;
   o_clean : sst -> res;
@@ -228,126 +241,173 @@ Record ops := {
   o_init : sst
 }.
 
-Definition opdel (ow : option nat) : list tev := match ow with Some id => [TOpDel id] | None => [] end.
+(* ... and the same on the node body, which is what each adaptor implements *)
+Record bres := { b_st : body; b_ev : list tev; b_out : option (opk * outcome); b_fired : bool }.
+Definition bmk b ev out fired : bres := {| b_st := b; b_ev := ev; b_out := out; b_fired := fired |}.
+Definition bidle (b : body) : bres := bmk b [] None false.
 
-(* ghost: record a delivered next-outcome in the node's history *)
-Definition hist_add (r : res) : res :=
-  match r_out r, r_st r with
-  | Some (KN, o), Node h b => mk (Node (h ++ [o]) b) (r_ev r) (r_out r) (r_fired r)
-  | _, _ => r
+Record rops := {
+  ro_next : body -> env -> bres;
+  ro_clean : body -> bres;
+  ro_stop : body -> bres;
+  ro_leaf : body -> tgt -> outcome -> bres * bool;
+  ro_flush : body -> bres;
+  ro_arm : body -> body;
+  ro_budget : body -> nat;
+  ro_owner : option nat;
+  ro_cerr_ref : bool;
+  ro_init : body
+}.
+
+Definition is_val (o : outcome) : bool := match o with OVal _ => true | _ => false end.
+Definition kn (out : option (opk * outcome)) : list outcome :=
+  match out with Some (KN, o) => [o] | _ => [] end.
+
+Definition pm_next (pm : pmode) (out : option (opk * outcome)) : pmode :=
+  match pm with
+  | PFresh | PIdle =>
+      match out with
+      | None => PBusy
+      | Some (KN, o) => if is_val o then PIdle else PEnded
+      | Some (KC, _) => PBad
+      end
+  | _ => PBad
   end.
-Definition with_hist (I : ops) : ops :=
-  {| o_next := fun st en => hist_add (o_next I st en);
-     o_clean := fun st => hist_add (o_clean I st);
-     o_stop := fun st => hist_add (o_stop I st);
-     o_leaf := fun st tg o => let (r, hit) := o_leaf I st tg o in (hist_add r, hit);
-     o_flush := fun st => hist_add (o_flush I st);
-     o_arm := o_arm I;
-     o_budget := o_budget I; o_owner := o_owner I; o_cerr_ref := o_cerr_ref I; o_init := o_init I |}.
+Definition pm_clean (pm : pmode) (out : option (opk * outcome)) : pmode :=
+  match pm with
+  | PIdle | PEnded =>
+      match out with
+      | None => PCleaning
+      | Some (KC, _) => PCleaned
+      | Some (KN, _) => PBad
+      end
+  | _ => PBad
+  end.
+(* stop / leaf completion / flush: only an outstanding operation can complete *)
+Definition pm_other (pm : pmode) (out : option (opk * outcome)) : pmode :=
+  match out with
+  | None => pm
+  | Some (KN, o) => match pm with PBusy => if is_val o then PIdle else PEnded | _ => PBad end
+  | Some (KC, _) => match pm with PCleaning => PCleaned | _ => PBad end
+  end.
+
+Definition lift (h : list outcome) (pm' : pmode) (r : bres) : res :=
+  mk (Node (h ++ kn (b_out r)) pm' (b_st r)) (b_ev r) (b_out r) (b_fired r).
+
+Definition wrap (J : rops) : ops :=
+  {| o_next := fun st en => match st with Node h pm b => let r := ro_next J b en in lift h (pm_next pm (b_out r)) r end;
+     o_clean := fun st => match st with Node h pm b => let r := ro_clean J b in lift h (pm_clean pm (b_out r)) r end;
+     o_stop := fun st => match st with Node h pm b => let r := ro_stop J b in lift h (pm_other pm (b_out r)) r end;
+     o_leaf := fun st tg o =>
+       match st with Node h pm b => let (r, hit) := ro_leaf J b tg o in (lift h (pm_other pm (b_out r)) r, hit) end;
+     o_flush := fun st => match st with Node h pm b => let r := ro_flush J b in lift h (pm_other pm (b_out r)) r end;
+     o_arm := fun st => match st with Node h pm b => Node h pm (ro_arm J b) end;
+     o_budget := fun st => match st with Node _ _ b => ro_budget J b end;
+     o_owner := ro_owner J; o_cerr_ref := ro_cerr_ref J;
+     o_init := Node [] PFresh (ro_init J) |}.
+
+Definition opdel (ow : option nat) : list tev := match ow with Some id => [TOpDel id] | None => [] end.
 
 (* ---- sources ----------------------------------------------------------------------------------------- *)
 (* range_stream.hpp:93-99 next completes inline, ignores stop; cleanup = just_done() *)
-Definition range_ops (a b : Z) : ops :=
-  {| o_next := fun st _ =>
-       match st with
-       | Node h (BRange pos) =>
-           if pos <? b then mk (Node h (BRange (pos + 1))) [] (Some (KN, OVal pos)) false
-           else mk st [] (Some (KN, ODone)) false
-       | _ => idle st
+Definition range_ops (a b : Z) : rops :=
+  {| ro_next := fun bd _ =>
+       match bd with
+       | BRange pos =>
+           if pos <? b then bmk (BRange (pos + 1)) [] (Some (KN, OVal pos)) false
+           else bmk bd [] (Some (KN, ODone)) false
+       | _ => bidle bd
        end;
-     o_clean := fun st => mk st [] (Some (KC, ODone)) false;
-     o_stop := idle;
-     o_leaf := fun st _ _ => (idle st, false);
-     o_flush := idle;
-     o_arm := fun st => st;
-     o_budget := fun st => match st with Node _ (BRange pos) => Z.to_nat (b - pos) | _ => O end;
-     o_owner := None;
-     o_cerr_ref := false;
-     o_init := Node [] (BRange a) |}.
+     ro_clean := fun bd => bmk bd [] (Some (KC, ODone)) false;
+     ro_stop := bidle;
+     ro_leaf := fun bd _ _ => (bidle bd, false);
+     ro_flush := bidle;
+     ro_arm := fun bd => bd;
+     ro_budget := fun bd => match bd with BRange pos => Z.to_nat (b - pos) | _ => O end;
+     ro_owner := None;
+     ro_cerr_ref := false;
+     ro_init := BRange a |}.
 
 (* single.hpp:44-78,125-130: the first next-operation gets the sender, later ones complete with done *)
-Definition single_ops (v : Z) : ops :=
-  {| o_next := fun st _ =>
-       match st with
-       | Node h (BSingle used) =>
-           if used then mk st [] (Some (KN, ODone)) false
-           else mk (Node h (BSingle true)) [] (Some (KN, OVal v)) false
-       | _ => idle st
+Definition single_ops (v : Z) : rops :=
+  {| ro_next := fun bd _ =>
+       match bd with
+       | BSingle used =>
+           if used then bmk bd [] (Some (KN, ODone)) false
+           else bmk (BSingle true) [] (Some (KN, OVal v)) false
+       | _ => bidle bd
        end;
-     o_clean := fun st => mk st [] (Some (KC, ODone)) false;
-     o_stop := idle;
-     o_leaf := fun st _ _ => (idle st, false);
-     o_flush := idle;
-     o_arm := fun st => st;
-     o_budget := fun st => match st with Node _ (BSingle false) => 1%nat | _ => O end;
-     o_owner := None;
-     o_cerr_ref := false;
-     o_init := Node [] (BSingle false) |}.
+     ro_clean := fun bd => bmk bd [] (Some (KC, ODone)) false;
+     ro_stop := bidle;
+     ro_leaf := fun bd _ _ => (bidle bd, false);
+     ro_flush := bidle;
+     ro_arm := fun bd => bd;
+     ro_budget := fun bd => match bd with BSingle false => 1%nat | _ => O end;
+     ro_owner := None;
+     ro_cerr_ref := false;
+     ro_init := BSingle false |}.
 
 (* never.hpp:44-80: start() only registers the stop callback, which completes with done *)
-Definition never_ops : ops :=
-  {| o_next := fun st en =>
-       match st with
-       | Node h (BNever _ cut) =>
-           if runs_inline en then mk (Node h (BNever false true)) (fire_ev en) (Some (KN, ODone)) (fires en)
-           else mk (Node h (BNever true cut)) [] None false
-       | _ => idle st
+Definition never_ops : rops :=
+  {| ro_next := fun bd en =>
+       match bd with
+       | BNever _ cut =>
+           if runs_inline en then bmk (BNever false true) (fire_ev en) (Some (KN, ODone)) (fires en)
+           else bmk (BNever true cut) [] None false
+       | _ => bidle bd
        end;
-     o_clean := fun st => mk st [] (Some (KC, ODone)) false;
-     o_stop := fun st =>
-       match st with
-       | Node h (BNever true _) => mk (Node h (BNever false true)) [] (Some (KN, ODone)) false
-       | _ => idle st
+     ro_clean := fun bd => bmk bd [] (Some (KC, ODone)) false;
+     ro_stop := fun bd =>
+       match bd with
+       | BNever true _ => bmk (BNever false true) [] (Some (KN, ODone)) false
+       | _ => bidle bd
        end;
-     o_leaf := fun st _ _ => (idle st, false);
-     o_flush := idle;
-     o_arm := fun st => st;
-     o_budget := fun _ => O;
-     o_owner := None;
-     o_cerr_ref := false;
-     o_init := Node [] (BNever false false) |}.
+     ro_leaf := fun bd _ _ => (bidle bd, false);
+     ro_flush := bidle;
+     ro_arm := fun bd => bd;
+     ro_budget := fun _ => O;
+     ro_owner := None;
+     ro_cerr_ref := false;
+     ro_init := BNever false false |}.
+
+Definition okn (c : option outcome) : option (opk * outcome) := match c with Some o => Some (KN, o) | None => None end.
+Definition okc (c : option outcome) : option (opk * outcome) := match c with Some o => Some (KC, o) | None => None end.
 
 (* harness/k2s.hpp k2s::src *)
-Definition src_ops (id : nat) (reactive : bool) : ops :=
-  {| o_next := fun st en =>
-       match st with
-       | Node h (BSrc s) =>
-           let '(s', ev, c) := src_next id reactive s en in
-           mk (Node h (BSrc s')) ev (match c with Some o => Some (KN, o) | None => None end) (fires en)
-       | _ => idle st
+Definition src_ops (id : nat) (reactive : bool) : rops :=
+  {| ro_next := fun bd en =>
+       match bd with
+       | BSrc s => let '(s', ev, c) := src_next id reactive s en in bmk (BSrc s') ev (okn c) (fires en)
+       | _ => bidle bd
        end;
-     o_clean := fun st =>
-       match st with
-       | Node h (BSrc s) => let (s', ev) := src_cleanup id s in mk (Node h (BSrc s')) ev None false
-       | _ => idle st
+     ro_clean := fun bd =>
+       match bd with
+       | BSrc s => let (s', ev) := src_cleanup id s in bmk (BSrc s') ev None false
+       | _ => bidle bd
        end;
-     o_stop := fun st =>
-       match st with
-       | Node h (BSrc s) =>
-           let '(s', ev, c) := src_stop id reactive s in
-           mk (Node h (BSrc s')) ev (match c with Some o => Some (KN, o) | None => None end) false
-       | _ => idle st
+     ro_stop := fun bd =>
+       match bd with
+       | BSrc s => let '(s', ev, c) := src_stop id reactive s in bmk (BSrc s') ev (okn c) false
+       | _ => bidle bd
        end;
-     o_leaf := fun st tg o =>
-       match st, tg with
-       | Node h (BSrc s), TgNext i =>
+     ro_leaf := fun bd tg o =>
+       match bd, tg with
+       | BSrc s, TgNext i =>
            if Nat.eqb i id then
-             let '(s', ev, c, hit) := src_complete id s o in
-             (mk (Node h (BSrc s')) ev (match c with Some o' => Some (KN, o') | None => None end) false, hit)
-           else (idle st, false)
-       | Node h (BSrc s), TgClean i =>
+             let '(s', ev, c, hit) := src_complete id s o in (bmk (BSrc s') ev (okn c) false, hit)
+           else (bidle bd, false)
+       | BSrc s, TgClean i =>
            if Nat.eqb i id then
-             let '(s', ev, c, hit) := src_cleanup_complete id s o in
-             (mk (Node h (BSrc s')) ev (match c with Some o' => Some (KC, o') | None => None end) false, hit)
-           else (idle st, false)
-       | _, _ => (idle st, false)
+             let '(s', ev, c, hit) := src_cleanup_complete id s o in (bmk (BSrc s') ev (okc c) false, hit)
+           else (bidle bd, false)
+       | _, _ => (bidle bd, false)
        end;
-     o_flush := idle;
-     o_arm := fun st => st;
-     o_budget := fun _ => O;
-     o_owner := Some id;
-     o_cerr_ref := false;
-     o_init := Node [] (BSrc src0) |}.
+     ro_flush := bidle;
+     ro_arm := fun bd => bd;
+     ro_budget := fun _ => O;
+     ro_owner := Some id;
+     ro_cerr_ref := false;
+     ro_init := BSrc src0 |}.
 
 (* ---- transform_stream = next_adapt_stream(s, then(_, ref(f))) ------------------------------------- *)
 Definition tr_out (f : fn) (o : outcome) : list tev * outcome :=
@@ -356,231 +416,230 @@ Definition tr_out (f : fn) (o : outcome) : list tev * outcome :=
   | _ => ([], o)
   end.
 
-Definition tr_wrap (f : fn) (h : list outcome) (r : res) : res :=
+Definition tr_wrap (f : fn) (r : res) : bres :=
   match r_out r with
   | Some (KN, o) =>
-      let (ev2, o') := tr_out f o in
-      mk (Node h (BUn KTr (r_st r))) (r_ev r ++ ev2) (Some (KN, o')) (r_fired r)
-  | out => mk (Node h (BUn KTr (r_st r))) (r_ev r) out (r_fired r)
+      let (ev2, o') := tr_out f o in bmk (BUn KTr (r_st r)) (r_ev r ++ ev2) (Some (KN, o')) (r_fired r)
+  | out => bmk (BUn KTr (r_st r)) (r_ev r) out (r_fired r)
   end.
 
-Definition tr_ops (f : fn) (I : ops) : ops :=
-  {| o_next := fun st en => match st with Node h (BUn KTr si) => tr_wrap f h (o_next I si en) | _ => idle st end;
-     o_clean := fun st => match st with Node h (BUn KTr si) => tr_wrap f h (o_clean I si) | _ => idle st end;
-     o_stop := fun st => match st with Node h (BUn KTr si) => tr_wrap f h (o_stop I si) | _ => idle st end;
-     o_leaf := fun st tg o =>
-       match st with
-       | Node h (BUn KTr si) => let (r, hit) := o_leaf I si tg o in (tr_wrap f h r, hit)
-       | _ => (idle st, false)
+Definition tr_ops (f : fn) (I : ops) : rops :=
+  {| ro_next := fun bd en => match bd with BUn KTr si => tr_wrap f (o_next I si en) | _ => bidle bd end;
+     ro_clean := fun bd => match bd with BUn KTr si => tr_wrap f (o_clean I si) | _ => bidle bd end;
+     ro_stop := fun bd => match bd with BUn KTr si => tr_wrap f (o_stop I si) | _ => bidle bd end;
+     ro_leaf := fun bd tg o =>
+       match bd with
+       | BUn KTr si => let (r, hit) := o_leaf I si tg o in (tr_wrap f r, hit)
+       | _ => (bidle bd, false)
        end;
-     o_flush := fun st => match st with Node h (BUn KTr si) => tr_wrap f h (o_flush I si) | _ => idle st end;
-     o_arm := fun st => match st with Node h (BUn KTr si) => Node h (BUn KTr (o_arm I si)) | _ => st end;
-     o_budget := fun st => match st with Node _ (BUn _ si) => o_budget I si | _ => O end;
-     o_owner := o_owner I;
-     o_cerr_ref := o_cerr_ref I;
-     o_init := Node [] (BUn KTr (o_init I)) |}.
+     ro_flush := fun bd => match bd with BUn KTr si => tr_wrap f (o_flush I si) | _ => bidle bd end;
+     ro_arm := fun bd => match bd with BUn KTr si => BUn KTr (o_arm I si) | _ => bd end;
+     ro_budget := fun bd => match bd with BUn _ si => o_budget I si | _ => O end;
+     ro_owner := o_owner I;
+     ro_cerr_ref := o_cerr_ref I;
+     ro_init := BUn KTr (o_init I) |}.
 
 (* ---- filter_stream.hpp:70-96: a rejected value destroys the inner next-op and starts a new one --- *)
 Definition fi_env (s : fist) : env := {| e_stopped := fi_stopped s; e_armed := fi_armed s |}.
 
-Fixpoint fi_loop (p : pred) (I : ops) (fuel : nat) (h : list outcome) (fs : fist) (r : res) : res :=
+Fixpoint fi_loop (p : pred) (I : ops) (fuel : nat) (fs : fist) (r : res) : bres :=
   let fs1 := if r_fired r then {| fi_stopped := true; fi_armed := false |} else fs in
   match r_out r with
   | Some (KN, OVal v) =>
       match pred_apply p v with
-      | inl true => mk (Node h (BUn (KFi fs1) (r_st r))) (r_ev r ++ [TPred p v]) (Some (KN, OVal v)) (r_fired r)
-      | inr e => mk (Node h (BUn (KFi fs1) (r_st r))) (r_ev r ++ [TPred p v]) (Some (KN, OErr e)) (r_fired r)
+      | inl true => bmk (BUn (KFi fs1) (r_st r)) (r_ev r ++ [TPred p v]) (Some (KN, OVal v)) (r_fired r)
+      | inr e => bmk (BUn (KFi fs1) (r_st r)) (r_ev r ++ [TPred p v]) (Some (KN, OErr e)) (r_fired r)
       | inl false =>
           match fuel with
-          | O => mk (Node h (BUn (KFi fs1) (r_st r))) (r_ev r ++ [TPred p v]) None (r_fired r)
+          | O => bmk (BUn (KFi fs1) (r_st r)) (r_ev r ++ [TPred p v]) None (r_fired r)
           | S fuel' =>
-              let r3 := fi_loop p I fuel' h fs1 (o_next I (r_st r) (fi_env fs1)) in
-              mk (r_st r3) (r_ev r ++ [TPred p v] ++ r_ev r3) (r_out r3) (r_fired r || r_fired r3)
+              let r3 := fi_loop p I fuel' fs1 (o_next I (r_st r) (fi_env fs1)) in
+              bmk (b_st r3) (r_ev r ++ [TPred p v] ++ b_ev r3) (b_out r3) (r_fired r || b_fired r3)
           end
       end
-  | out => mk (Node h (BUn (KFi fs1) (r_st r))) (r_ev r) out (r_fired r)
+  | out => bmk (BUn (KFi fs1) (r_st r)) (r_ev r) out (r_fired r)
   end.
 
-Definition fi_wrap (p : pred) (I : ops) (h : list outcome) (fs : fist) (r : res) : res :=
-  fi_loop p I (S (o_budget I (r_st r))) h fs r.
+Definition fi_wrap (p : pred) (I : ops) (fs : fist) (r : res) : bres :=
+  fi_loop p I (S (o_budget I (r_st r))) fs r.
 
-Definition fi_ops (p : pred) (I : ops) : ops :=
-  {| o_next := fun st en =>
-       match st with
-       | Node h (BUn (KFi _) si) =>
-           fi_wrap p I h {| fi_stopped := e_stopped en; fi_armed := e_armed en |} (o_next I si en)
-       | _ => idle st
+Definition fi_ops (p : pred) (I : ops) : rops :=
+  {| ro_next := fun bd en =>
+       match bd with
+       | BUn (KFi _) si => fi_wrap p I {| fi_stopped := e_stopped en; fi_armed := e_armed en |} (o_next I si en)
+       | _ => bidle bd
        end;
-     o_clean := fun st => match st with Node h (BUn (KFi fs) si) => fi_wrap p I h fs (o_clean I si) | _ => idle st end;
-     o_stop := fun st =>
-       match st with
-       | Node h (BUn (KFi _) si) => fi_wrap p I h {| fi_stopped := true; fi_armed := false |} (o_stop I si)
-       | _ => idle st
+     ro_clean := fun bd => match bd with BUn (KFi fs) si => fi_wrap p I fs (o_clean I si) | _ => bidle bd end;
+     ro_stop := fun bd =>
+       match bd with
+       | BUn (KFi _) si => fi_wrap p I {| fi_stopped := true; fi_armed := false |} (o_stop I si)
+       | _ => bidle bd
        end;
-     o_leaf := fun st tg o =>
-       match st with
-       | Node h (BUn (KFi fs) si) => let (r, hit) := o_leaf I si tg o in (fi_wrap p I h fs r, hit)
-       | _ => (idle st, false)
+     ro_leaf := fun bd tg o =>
+       match bd with
+       | BUn (KFi fs) si => let (r, hit) := o_leaf I si tg o in (fi_wrap p I fs r, hit)
+       | _ => (bidle bd, false)
        end;
-     o_flush := fun st => match st with Node h (BUn (KFi fs) si) => fi_wrap p I h fs (o_flush I si) | _ => idle st end;
-     o_arm := fun st => match st with
-                     | Node h (BUn (KFi fs) si) =>
-                         Node h (BUn (KFi (if fi_stopped fs then fs else {| fi_stopped := false; fi_armed := true |})) (o_arm I si))
-                     | _ => st
-                     end;
-     o_budget := fun st => match st with Node _ (BUn _ si) => o_budget I si | _ => O end;
-     o_owner := o_owner I;
-     o_cerr_ref := o_cerr_ref I;
-     o_init := Node [] (BUn (KFi {| fi_stopped := false; fi_armed := false |}) (o_init I)) |}.
+     ro_flush := fun bd => match bd with BUn (KFi fs) si => fi_wrap p I fs (o_flush I si) | _ => bidle bd end;
+     ro_arm := fun bd =>
+       match bd with
+       | BUn (KFi fs) si =>
+           BUn (KFi (if fi_stopped fs then fs else {| fi_stopped := false; fi_armed := true |})) (o_arm I si)
+       | _ => bd
+       end;
+     ro_budget := fun bd => match bd with BUn _ si => o_budget I si | _ => O end;
+     ro_owner := o_owner I;
+     ro_cerr_ref := o_cerr_ref I;
+     ro_init := BUn (KFi {| fi_stopped := false; fi_armed := false |}) (o_init I) |}.
 
 (* ---- stop_immediately.hpp --------------------------------------------------------------------------- *)
-Definition si_node (h : list outcome) (s : sist) (si : sst) : sst := Node h (BUn (KSI s) si).
+Definition si_b (s : sist) (si : sst) : body := BUn (KSI s) si.
 
 (* cleanup_sender::receiver_wrapper::set_done/set_error (l.355-381): destroy cleanupOp_, prefer nextError_ *)
-Definition si_cleanup_done (vr : variant) (I : ops) h (s : sist) (si : sst) (ev : list tev) (oc : outcome) (fired : bool) : res :=
+Definition si_cleanup_done (vr : variant) (I : ops) (s : sist) (si : sst) (ev : list tev) (oc : outcome) (fired : bool) : bres :=
   (* set_error(Error&& error) l.367-380: cleanupOp_.destruct() first, then the reference is forwarded; if it
      points into the destroyed cleanup operation (take_until passes std::move(sourceError_)) it dangles *)
   let uaf := match oc, si_err s with
              | OErr _, None => if o_cerr_ref I && negb (v_sierr_fixed vr) then [TUaf 1] else []
              | _, _ => []
              end in
-  mk (si_node h (si_set_err s None) si) (ev ++ opdel (o_owner I) ++ uaf)
-     (Some (KC, match si_err s with Some e => OErr e | None => clean_outcome oc end)) fired.
+  bmk (si_b (si_set_err s None) si) (ev ++ opdel (o_owner I) ++ uaf)
+      (Some (KC, match si_err s with Some e => OErr e | None => clean_outcome oc end)) fired.
 
 (* next_receiver::handle_signal (l.153-190) for the source's next completing with o *)
-Definition si_signal (vr : variant) (I : ops) h (s : sist) (si : sst) (ev : list tev) (o : outcome) (fired : bool) : res :=
+Definition si_signal (vr : variant) (I : ops) (s : sist) (si : sst) (ev : list tev) (o : outcome) (fired : bool) : bres :=
   let err' := match o with OErr e => Some e | _ => si_err s end in
   match si_state s with
   | SActive =>
       (* we own the receiver: deliver (an error is moved out of nextError_ again) *)
-      mk (si_node h (si_set_state s SCompleted) si) ev (Some (KN, o)) fired
+      bmk (si_b (si_set_state s SCompleted) si) ev (Some (KN, o)) fired
   | SStopped =>
       (* the receiver already got done: drop the signal (an error stays in nextError_); the request_stop
          that caused this completion returns, so continuations deferred below run now *)
       let rf := o_flush I si in
-      mk (si_node h (si_set_cut (si_set_err (si_set_state s SCompleted) err') true) (r_st rf)) (ev ++ r_ev rf) None fired
+      bmk (si_b (si_set_cut (si_set_err (si_set_state s SCompleted) err') true) (r_st rf)) (ev ++ r_ev rf) None fired
   | SCleanupReq =>
       (* cleanup was requested meanwhile: start cleanup(source_) now *)
       let s' := si_set_incl (si_set_err s err') true in
       let rc := o_clean I si in
       match r_out rc with
-      | Some (KC, oc) => si_cleanup_done vr I h s' (r_st rc) (ev ++ r_ev rc) oc fired
-      | _ => mk (si_node h s' (r_st rc)) (ev ++ r_ev rc) None fired
+      | Some (KC, oc) => si_cleanup_done vr I s' (r_st rc) (ev ++ r_ev rc) oc fired
+      | _ => bmk (si_b s' (r_st rc)) (ev ++ r_ev rc) None fired
       end
   | _ =>
       (* not reachable (no next of the source is active in these states; the real code asserts): the
          signal is passed on *)
-      mk (si_node h s si) ev (Some (KN, o)) fired
+      bmk (si_b s si) ev (Some (KN, o)) fired
   end.
 
-Definition si_inner (vr : variant) (I : ops) h (s : sist) (r : res) : res :=
+Definition si_inner (vr : variant) (I : ops) (s : sist) (r : res) : bres :=
   match r_out r with
-  | Some (KN, o) => si_signal vr I h s (r_st r) (r_ev r) o (r_fired r)
-  | Some (KC, oc) => si_cleanup_done vr I h s (r_st r) (r_ev r) oc (r_fired r)
-  | None => mk (si_node h s (r_st r)) (r_ev r) None (r_fired r)
+  | Some (KN, o) => si_signal vr I s (r_st r) (r_ev r) o (r_fired r)
+  | Some (KC, oc) => si_cleanup_done vr I s (r_st r) (r_ev r) oc (r_fired r)
+  | None => bmk (si_b s (r_st r)) (r_ev r) None (r_fired r)
   end.
 
-Definition si_ops (vr : variant) (I : ops) : ops :=
-  {| o_next := fun st en =>
-       match st with
-       | Node h (BUn (KSI s) si) =>
+Definition si_ops (vr : variant) (I : ops) : rops :=
+  {| ro_next := fun bd en =>
+       match bd with
+       | BUn (KSI s) si =>
            (* l.248-252 *)
-           if e_stopped en then mk (si_node h (si_set_cut s true) si) [] (Some (KN, ODone)) false
+           if e_stopped en then bmk (si_b (si_set_cut s true) si) [] (Some (KN, ODone)) false
            else if e_armed en then
              (* l.256-266: nextOp_ constructed, state_ = active, then the callback runs inside
                 stopCallback_.construct: CAS active -> stream_stopped, request_stop (nothing registered
                 yet), set_done; start() continues with start(nextOp_) only after that (deferred) *)
-             mk (si_node h (si_set_cut (si_set_defer (si_set_own (si_set_state s SStopped) true) true) true) si)
-                [TFire] (Some (KN, ODone)) true
-           else si_inner vr I h (si_set_state s SActive) (o_next I si (env_own (si_own s)))
-       | _ => idle st
+             bmk (si_b (si_set_cut (si_set_defer (si_set_own (si_set_state s SStopped) true) true) true) si)
+                 [TFire] (Some (KN, ODone)) true
+           else si_inner vr I (si_set_state s SActive) (o_next I si (env_own (si_own s)))
+       | _ => bidle bd
        end;
-     o_clean := fun st =>
-       match st with
-       | Node h (BUn (KSI s) si) =>
+     ro_clean := fun bd =>
+       match bd with
+       | BUn (KSI s) si =>
            (* l.395-423 *)
            match si_state s with
-           | SStopped => mk (si_node h (si_set_state s SCleanupReq) si) [] None false
-           | SCompleted => si_inner vr I h (si_set_incl s true) (o_clean I si)
-           | SNotStarted => mk st [] (Some (KC, ODone)) false
-           | _ => idle st
+           | SStopped => bmk (si_b (si_set_state s SCleanupReq) si) [] None false
+           | SCompleted => si_inner vr I (si_set_incl s true) (o_clean I si)
+           | SNotStarted => bmk bd [] (Some (KC, ODone)) false
+           | _ => bidle bd
            end
-       | _ => idle st
+       | _ => bidle bd
        end;
-     o_stop := fun st =>
-       match st with
-       | Node h (BUn (KSI s) si) =>
+     ro_stop := fun bd =>
+       match bd with
+       | BUn (KSI s) si =>
            (* cancel_next_callback l.72-110 *)
            match si_state s with
            | SActive =>
                let s1 := si_set_cut (si_set_own (si_set_state s SStopped) true) true in
-               let r1 := si_inner vr I h s1 (o_stop I si) in
-               mk (r_st r1) (r_ev r1) (Some (KN, ODone)) false
-           | _ => idle st
+               let r1 := si_inner vr I s1 (o_stop I si) in
+               bmk (b_st r1) (b_ev r1) (Some (KN, ODone)) false
+           | _ => bidle bd
            end
-       | _ => idle st
+       | _ => bidle bd
        end;
-     o_leaf := fun st tg o =>
-       match st with
-       | Node h (BUn (KSI s) si) => let (r, hit) := o_leaf I si tg o in (si_inner vr I h s r, hit)
-       | _ => (idle st, false)
+     ro_leaf := fun bd tg o =>
+       match bd with
+       | BUn (KSI s) si => let (r, hit) := o_leaf I si tg o in (si_inner vr I s r, hit)
+       | _ => (bidle bd, false)
        end;
-     o_flush := fun st =>
-       match st with
-       | Node h (BUn (KSI s) si) =>
-           let r1 := si_inner vr I h s (o_flush I si) in
-           match r_st r1 with
-           | Node h1 (BUn (KSI s1) si1) =>
+     ro_flush := fun bd =>
+       match bd with
+       | BUn (KSI s) si =>
+           let r1 := si_inner vr I s (o_flush I si) in
+           match b_st r1 with
+           | BUn (KSI s1) si1 =>
                if si_defer s1 then
                  (* l.267 start(stream_.nextOp_.get()) after the callback delivered done; as written the
                     operation (and with it the reference member stream_) is already destroyed *)
-                 let r2 := si_inner vr I h1 (si_set_defer s1 false) (o_next I si1 (env_own (si_own s1))) in
-                 mk (r_st r2) (r_ev r1 ++ (if v_si_fixed vr then [] else [TUaf 0]) ++ r_ev r2)
-                    (match r_out r2 with Some x => Some x | None => r_out r1 end) false
+                 let r2 := si_inner vr I (si_set_defer s1 false) (o_next I si1 (env_own (si_own s1))) in
+                 bmk (b_st r2) (b_ev r1 ++ (if v_si_fixed vr then [] else [TUaf 0]) ++ b_ev r2)
+                     (match b_out r2 with Some x => Some x | None => b_out r1 end) false
                else r1
            | _ => r1
            end
-       | _ => idle st
+       | _ => bidle bd
        end;
-     o_arm := fun st => st;
-     o_budget := fun st => match st with Node _ (BUn _ si) => o_budget I si | _ => O end;
-     o_owner := None;
-     o_cerr_ref := false;
-     o_init := Node [] (BUn (KSI si0) (o_init I)) |}.
+     ro_arm := fun bd => bd;
+     ro_budget := fun bd => match bd with BUn _ si => o_budget I si | _ => O end;
+     ro_owner := None;
+     ro_cerr_ref := false;
+     ro_init := BUn (KSI si0) (o_init I) |}.
 
 (* ---- type_erased_stream.hpp -------------------------------------------------------------------------- *)
-Definition te_node (h : list outcome) (t : test) (si : sst) : sst := Node h (BUn (KTE t) si).
+Definition te_b (t : test) (si : sst) : body := BUn (KTE t) si.
 
-Definition te_inner (vr : variant) (I : ops) h (t : test) (r : res) : res :=
+Definition te_inner (vr : variant) (I : ops) (t : test) (r : res) : bres :=
   let uaf := if v_te_fixed vr then [] else [TUaf 2] in
   match r_out r with
   | Some (KN, o) =>
       (* _next_receiver::set_* l.137-153: deliver iff complete() brings refCount_ to 0 *)
       let ref' := Nat.pred (te_ref t) in
       if Nat.eqb ref' 0 then
-        mk (te_node h {| te_out := false; te_ref := 0; te_own := te_own t |} (r_st r)) (r_ev r ++ uaf) (Some (KN, o)) (r_fired r)
-      else mk (te_node h {| te_out := te_out t; te_ref := ref'; te_own := te_own t |} (r_st r)) (r_ev r ++ uaf) None (r_fired r)
-  | Some (KC, oc) => mk (te_node h t (r_st r)) (r_ev r ++ opdel (o_owner I) ++ uaf) (Some (KC, clean_outcome oc)) (r_fired r)
-  | None => mk (te_node h t (r_st r)) (r_ev r) None (r_fired r)
+        bmk (te_b {| te_out := false; te_ref := 0; te_own := te_own t |} (r_st r)) (r_ev r ++ uaf) (Some (KN, o)) (r_fired r)
+      else bmk (te_b {| te_out := te_out t; te_ref := ref'; te_own := te_own t |} (r_st r)) (r_ev r ++ uaf) None (r_fired r)
+  | Some (KC, oc) => bmk (te_b t (r_st r)) (r_ev r ++ opdel (o_owner I) ++ uaf) (Some (KC, clean_outcome oc)) (r_fired r)
+  | None => bmk (te_b t (r_st r)) (r_ev r) None (r_fired r)
   end.
 
-Definition te_ops (vr : variant) (I : ops) : ops :=
-  {| o_next := fun st en =>
-       match st with
-       | Node h (BUn (KTE _) si) =>
+Definition te_ops (vr : variant) (I : ops) : rops :=
+  {| ro_next := fun bd en =>
+       match bd with
+       | BUn (KTE _) si =>
            (* l.386-394: the stop callback is registered by the operation's constructor; run inline it does
               refCount_ 1->2, stopSource_.request_stop(), receiver_.set_done() (2->1, nothing delivered);
               start() l.396-402 then starts the inner next with the own token *)
            let own := runs_inline en in
            let t1 := {| te_out := true; te_ref := 1; te_own := own |} in
-           let r1 := te_inner vr I h t1 (o_next I si (env_own own)) in
-           mk (r_st r1) (fire_ev en ++ r_ev r1) (r_out r1) (fires en)
-       | _ => idle st
+           let r1 := te_inner vr I t1 (o_next I si (env_own own)) in
+           bmk (b_st r1) (fire_ev en ++ b_ev r1) (b_out r1) (fires en)
+       | _ => bidle bd
        end;
-     o_clean := fun st => match st with Node h (BUn (KTE t) si) => te_inner vr I h t (o_clean I si) | _ => idle st end;
-     o_stop := fun st =>
-       match st with
-       | Node h (BUn (KTE t) si) =>
+     ro_clean := fun bd => match bd with BUn (KTE t) si => te_inner vr I t (o_clean I si) | _ => bidle bd end;
+     ro_stop := fun bd =>
+       match bd with
+       | BUn (KTE t) si =>
            if te_out t then
              (* request_stop() l.404-414 *)
              let r := o_stop I si in
@@ -591,25 +650,25 @@ Definition te_ops (vr : variant) (I : ops) : ops :=
                  end in
              let ref2 := Nat.pred ref1 in
              if Nat.eqb ref2 0 then
-               mk (te_node h {| te_out := false; te_ref := 0; te_own := true |} si1) ev1 (Some (KN, ODone)) false
-             else mk (te_node h {| te_out := true; te_ref := ref2; te_own := true |} si1) ev1 None false
-           else idle st
-       | _ => idle st
+               bmk (te_b {| te_out := false; te_ref := 0; te_own := true |} si1) ev1 (Some (KN, ODone)) false
+             else bmk (te_b {| te_out := true; te_ref := ref2; te_own := true |} si1) ev1 None false
+           else bidle bd
+       | _ => bidle bd
        end;
-     o_leaf := fun st tg o =>
-       match st with
-       | Node h (BUn (KTE t) si) => let (r, hit) := o_leaf I si tg o in (te_inner vr I h t r, hit)
-       | _ => (idle st, false)
+     ro_leaf := fun bd tg o =>
+       match bd with
+       | BUn (KTE t) si => let (r, hit) := o_leaf I si tg o in (te_inner vr I t r, hit)
+       | _ => (bidle bd, false)
        end;
-     o_flush := fun st => match st with Node h (BUn (KTE t) si) => te_inner vr I h t (o_flush I si) | _ => idle st end;
-     o_arm := fun st => st;
-     o_budget := fun st => match st with Node _ (BUn _ si) => o_budget I si | _ => O end;
-     o_owner := None;
-     o_cerr_ref := false;
-     o_init := Node [] (BUn (KTE te0) (o_init I)) |}.
+     ro_flush := fun bd => match bd with BUn (KTE t) si => te_inner vr I t (o_flush I si) | _ => bidle bd end;
+     ro_arm := fun bd => bd;
+     ro_budget := fun bd => match bd with BUn _ si => o_budget I si | _ => O end;
+     ro_owner := None;
+     ro_cerr_ref := false;
+     ro_init := BUn (KTE te0) (o_init I) |}.
 
 (* ---- take_until.hpp ---------------------------------------------------------------------------------- *)
-Definition tu_node (h : list outcome) (u : tust) (si : sst) : sst := Node h (BUn (KTU u) si).
+Definition tu_b (u : tust) (si : sst) : body := BUn (KTU u) si.
 
 (* start_trigger_cleanup l.317-328 *)
 Definition tu_start_tclean (tid : nat) (u : tust) : tust * list tev :=
@@ -658,16 +717,16 @@ Definition tu_inner_core (I : ops) (tid : nat) (treact : bool) (u : tust) (r : r
       (u2, r_ev r ++ ev2, Some (KN, o))
   | Some (KC, oc) =>
       let (u1, jo) := tu_join_source u (clean_outcome oc) in
-      (u1, r_ev r ++ opdel (o_owner I), match jo with Some x => Some (KC, x) | None => None end)
+      (u1, r_ev r ++ opdel (o_owner I), okc jo)
   | None => (u, r_ev r, None)
   end.
-Definition tu_inner (I : ops) (tid : nat) (treact : bool) h (u : tust) (r : res) : res :=
-  let '(u1, ev, out) := tu_inner_core I tid treact u r in mk (tu_node h u1 (r_st r)) ev out (r_fired r).
+Definition tu_inner (I : ops) (tid : nat) (treact : bool) (u : tust) (r : res) : bres :=
+  let '(u1, ev, out) := tu_inner_core I tid treact u r in bmk (tu_b u1 (r_st r)) ev out (r_fired r).
 
-Definition tu_ops (vr : variant) (tid : nat) (treact : bool) (I : ops) : ops :=
-  {| o_next := fun st en =>
-       match st with
-       | Node h (BUn (KTU u) si) =>
+Definition tu_ops (vr : variant) (tid : nat) (treact : bool) (I : ops) : rops :=
+  {| ro_next := fun bd en =>
+       match bd with
+       | BUn (KTU u) si =>
            (* next_sender::_op::type::start l.157-175 *)
            let u0 := tu_set_out u true in
            let '(u1, ev1) :=
@@ -682,13 +741,13 @@ Definition tu_ops (vr : variant) (tid : nat) (treact : bool) (I : ops) : ops :=
            let '(u2, ev2) :=
                if runs_inline en then let (u', ev) := tu_stop_trig tid treact u1 in (u', fire_ev en ++ ev)
                else (u1, []) in
-           let r1 := tu_inner I tid treact h u2 (o_next I si (env_own (tu_own u2))) in
-           mk (r_st r1) (ev1 ++ ev2 ++ r_ev r1) (r_out r1) (fires en)
-       | _ => idle st
+           let r1 := tu_inner I tid treact u2 (o_next I si (env_own (tu_own u2))) in
+           bmk (b_st r1) (ev1 ++ ev2 ++ b_ev r1) (b_out r1) (fires en)
+       | _ => bidle bd
        end;
-     o_clean := fun st =>
-       match st with
-       | Node h (BUn (KTU u) si) =>
+     ro_clean := fun bd =>
+       match bd with
+       | BUn (KTU u) si =>
            (* cleanup_sender::_op::type::start l.291-315 *)
            let rc := o_clean I si in
            let '(u1, ev1, _) := tu_inner_core I tid treact u rc in
@@ -698,12 +757,12 @@ Definition tu_ops (vr : variant) (tid : nat) (treact : bool) (I : ops) : ops :=
                  let (u', ev) := tu_stop_trig tid treact u1 in
                  if tu_ready u' then let (u'', ev') := tu_start_tclean tid u' in (u'', ev ++ ev')
                  else (tu_set_ready u' true, ev) in
-           mk (tu_node h u2 (r_st rc)) (ev1 ++ ev2) None false
-       | _ => idle st
+           bmk (tu_b u2 (r_st rc)) (ev1 ++ ev2) None false
+       | _ => bidle bd
        end;
-     o_stop := fun st =>
-       match st with
-       | Node h (BUn (KTU u) si) =>
+     ro_stop := fun bd =>
+       match bd with
+       | BUn (KTU u) si =>
            (* cancel_callback l.85-89: stopSource_.request_stop(); callbacks run most recently registered
               first: the source chain's, then the trigger's.  If the source chain completes the receiver
               from inside its callback the trigger's callback runs only after that cascade unwound. *)
@@ -711,17 +770,17 @@ Definition tu_ops (vr : variant) (tid : nat) (treact : bool) (I : ops) : ops :=
              let u1 := tu_set_own u true in
              let r := o_stop I si in
              match r_out r with
-             | Some _ => tu_inner I tid treact h (tu_set_defer u1 1) r
+             | Some _ => tu_inner I tid treact (tu_set_defer u1 1) r
              | None =>
                  let (u2, ev2) := tu_trig_cb tid treact u1 in
-                 mk (tu_node h u2 (r_st r)) (r_ev r ++ ev2) None false
+                 bmk (tu_b u2 (r_st r)) (r_ev r ++ ev2) None false
              end
-           else idle st
-       | _ => idle st
+           else bidle bd
+       | _ => bidle bd
        end;
-     o_leaf := fun st tg o =>
-       match st with
-       | Node h (BUn (KTU u) si) =>
+     ro_leaf := fun bd tg o =>
+       match bd with
+       | BUn (KTU u) si =>
            match tg with
            | TgNext i =>
                if Nat.eqb i tid then
@@ -730,19 +789,19 @@ Definition tu_ops (vr : variant) (tid : nat) (treact : bool) (I : ops) : ops :=
                  if hit then
                    let u1 := tu_set_trig u s' in
                    if tu_ready u1 then
-                     let (u2, ev2) := tu_start_tclean tid u1 in (mk (tu_node h u2 si) (ev ++ ev2) None false, true)
-                   else if tu_own u1 then (mk (tu_node h (tu_set_ready u1 true) si) ev None false, true)
+                     let (u2, ev2) := tu_start_tclean tid u1 in (bmk (tu_b u2 si) (ev ++ ev2) None false, true)
+                   else if tu_own u1 then (bmk (tu_b (tu_set_ready u1 true) si) ev None false, true)
                    else
                      let u2 := tu_set_own u1 true in
                      let r := o_stop I si in
                      match r_out r with
                      | Some _ =>
-                         let r' := tu_inner I tid treact h (tu_set_defer u2 2) r in
-                         (mk (r_st r') (ev ++ r_ev r') (r_out r') false, true)
-                     | None => (mk (tu_node h (tu_set_ready u2 true) (r_st r)) (ev ++ r_ev r) None false, true)
+                         let r' := tu_inner I tid treact (tu_set_defer u2 2) r in
+                         (bmk (b_st r') (ev ++ b_ev r') (b_out r') false, true)
+                     | None => (bmk (tu_b (tu_set_ready u2 true) (r_st r)) (ev ++ r_ev r) None false, true)
                      end
-                 else (idle st, false)
-               else let (r, hit) := o_leaf I si tg o in (tu_inner I tid treact h u r, hit)
+                 else (bidle bd, false)
+               else let (r, hit) := o_leaf I si tg o in (tu_inner I tid treact u r, hit)
            | TgClean i =>
                if Nat.eqb i tid then
                  (* trigger_receiver l.230-247: set_done destroys sourceOp_ (as written) *)
@@ -754,16 +813,16 @@ Definition tu_ops (vr : variant) (tid : nat) (treact : bool) (I : ops) : ops :=
                                 | _ => [TOpDel tid]
                                 end in
                      let (u2, jo) := tu_join_trigger (tu_set_trig u s') oc in
-                     (mk (tu_node h u2 si) (ev ++ del) (match jo with Some x => Some (KC, x) | None => None end) false, true)
-                 | _, _ => (idle st, false)
+                     (bmk (tu_b u2 si) (ev ++ del) (okc jo) false, true)
+                 | _, _ => (bidle bd, false)
                  end
-               else let (r, hit) := o_leaf I si tg o in (tu_inner I tid treact h u r, hit)
+               else let (r, hit) := o_leaf I si tg o in (tu_inner I tid treact u r, hit)
            end
-       | _ => (idle st, false)
+       | _ => (bidle bd, false)
        end;
-     o_flush := fun st =>
-       match st with
-       | Node h (BUn (KTU u) si) =>
+     ro_flush := fun bd =>
+       match bd with
+       | BUn (KTU u) si =>
            let rf := o_flush I si in
            let '(u1, ev1, out1) := tu_inner_core I tid treact u rf in
            let '(u2, ev2) :=
@@ -772,18 +831,18 @@ Definition tu_ops (vr : variant) (tid : nat) (treact : bool) (I : ops) : ops :=
                | 2%nat => tu_trig_cont tid (tu_set_defer u1 0)
                | _ => (u1, [])
                end in
-           mk (tu_node h u2 (r_st rf)) (ev1 ++ ev2) out1 (r_fired rf)
-       | _ => idle st
+           bmk (tu_b u2 (r_st rf)) (ev1 ++ ev2) out1 (r_fired rf)
+       | _ => bidle bd
        end;
-     o_arm := fun st => st;
-     o_budget := fun st => match st with Node _ (BUn _ si) => o_budget I si | _ => O end;
-     o_owner := None;
-     o_cerr_ref := true;
-     o_init := Node [] (BUn (KTU tu0) (o_init I)) |}.
+     ro_arm := fun bd => bd;
+     ro_budget := fun bd => match bd with BUn _ si => o_budget I si | _ => O end;
+     ro_owner := None;
+     ro_cerr_ref := true;
+     ro_init := BUn (KTU tu0) (o_init I) |}.
 
 (* ---- pipelines ----------------------------------------------------------------------------------------- *)
 Fixpoint ops_of (vr : variant) (e : stexpr) : ops :=
-  with_hist
+  wrap
     match e with
     | SRange a b => range_ops a b
     | SSingle v => single_ops v
